@@ -206,9 +206,14 @@ impl<T: Qcow2IoOps> Qcow2Dev<T> {
             }
         };
 
-        if let Some(lock) = cluster_lock {
+        if let Some(mut lock) = cluster_lock {
             if let Some(df) = discard {
-                df.await?;
+                if let Err(e) = df.await {
+                    // not zeroed: this cluster stays new, so that it still
+                    // reads as zero, and the next user zeroes it
+                    *lock = false;
+                    return Err(e);
+                }
                 self.zeroed_clusters.fetch_add(1, Ordering::Relaxed);
             }
 
@@ -298,6 +303,39 @@ impl<T: Qcow2IoOps> Qcow2Dev<T> {
         Ok(())
     }
 
+    /// One l2 slice is going to be written in place as a whole, with its
+    /// write lock held by the caller. It may map other new data clusters
+    /// whose stale content isn't zeroed yet (mappings are populated before
+    /// the data writes of one multi-cluster write start, and one failed write
+    /// leaves its mappings behind): zero them, flush the refcounts of
+    /// everything mapped by this slice, and make both durable, before any of
+    /// these mappings reaches the disk.
+    pub(crate) async fn prepare_slice_direct_write(&self, l2_table: &L2Table) -> Qcow2Result<()> {
+        let info = &self.info;
+        let new_data_clusters: Vec<u64> = {
+            let cls_map = self.new_cluster.read().await;
+
+            (0..l2_table.entries())
+                .map(|i| l2_table.get(i))
+                .filter(|e| !e.is_compressed() && e.cluster_offset() != 0)
+                .map(|e| e.cluster_offset())
+                .filter(|off| cls_map.contains_key(&(off >> info.cluster_bits())))
+                .collect()
+        };
+        for host_off in new_data_clusters {
+            self.settle_new_meta_cluster(host_off).await?;
+        }
+
+        // flush refcount change, which is often small change
+        self.flush_refcount().await?;
+
+        // refcount flush syncs only if it has written something
+        if self.zeroing_unsynced() {
+            self.call_fsync(0, usize::MAX, 0).await?;
+        }
+        Ok(())
+    }
+
     async fn do_write_cow(&self, off: u64, mapping: &Mapping, buf: &[u8]) -> Qcow2Result<()> {
         let info = &self.info;
         let split = SplitGuestOffset(off);
@@ -372,29 +410,9 @@ impl<T: Qcow2IoOps> Qcow2Dev<T> {
                 // then flush this l2 table, then decrease the
                 // old cluster's reference count in ram
 
-                // This slice is going to be written as a whole, and it may
-                // map other new data clusters whose stale content isn't
-                // zeroed yet (mappings are populated before the data writes
-                // of one multi-cluster write start): zero them now, so the
-                // sync in the following refcount flush makes that durable
-                // before any of these mappings reaches the disk.
-                let new_data_clusters: Vec<u64> = {
-                    let cls_map = self.new_cluster.read().await;
-
-                    (0..l2_table.entries())
-                        .map(|i| l2_table.get(i))
-                        .filter(|e| !e.is_compressed() && e.cluster_offset() != 0)
-                        .map(|e| e.cluster_offset())
-                        .filter(|off| cls_map.contains_key(&(off >> info.cluster_bits())))
-                        .collect()
-                };
-                for host_off in new_data_clusters {
-                    self.settle_new_meta_cluster(host_off).await?;
-                }
-
-                // flush refcount change, which is often small
-                // change
-                self.flush_refcount().await?;
+                // refcounts of, and the zeroing of new data clusters mapped
+                // by, everything in this slice, see the helper
+                self.prepare_slice_direct_write(&l2_table).await?;
 
                 // flush mapping table in-place update
                 self.flush_table(&*l2_table, 0, l2_table.byte_size())
